@@ -5,6 +5,7 @@
 //!
 //! events (rendered 1:1 to XML text by `render`):
 //!   S <tag> <id:optstr> <ref:optstr>   `<tag id=".." spectrumRef="..">`   tag ∈ sp sc bda bin pre ion o<k>
+//!   B <tag>                            `<tag id="a&bogus;b">`: malformed entity in id (spectrum) / spectrumRef (precursor)
 //!   E <tag>                            `</tag>`
 //!   Z <tag>                            `<tag/>`  (o<k>: a userParam)
 //!   C <cv 0..20> <val> <unit>          `<cvParam accession=.. value=.. unitAccession=../>`
@@ -12,8 +13,11 @@
 //!   T e | T b | T d <wire hex> <inflated: 0 | 1 hex>     text: empty | not base64 | base64(wire)
 //! <style>: seed for rendering choices the parser must not care about (white space, comments, attribute
 //!   order, quotes, names of ignored elements, document wrapper), and the route:
-//!   style % 3 == 1: written to a temp `.mzML` file and read with `sage_cloudpath::util::read_mzml`,
-//!   style % 3 == 2: same through a gzip-compressed `.mzML.gz` (both only when no level filter is set).
+//!   style % 3 == 1: written to a temp file named `RUNn` + one of `.mzML .mzml .MZML` (spelling (style/3) % 3) and
+//!                   read with `sage_cloudpath::util::read_spectra` (format detection + `read_mzml`),
+//!   style % 3 == 2: same through a gzip-compressed file named `.mzML.gz .mzml.gz .MZML.GZ .mzml.Gz .mzML.gzip`
+//!                   (spelling (style/3) % 5; `.mzML.gzip` is read with `read_mzml` directly because format
+//!                   detection does not know that suffix); both only when no level filter is set.
 //! spectrum: <id hex> <level> <centroid> <tic> <start> <inj> <np> precursor… <nmz> f32… <nint> f32…
 //! precursor: <mz> <int:opt> <charge:opt> <ref:optstr> <window: 0 | 1 lo hi> <mobility:opt>
 //! floats are f32 bit patterns with NaN canonicalised to 0x7fc00000.
@@ -38,7 +42,9 @@ pub const INFO: Info = Info {
            for two-spectrum documents (thorough); payload lengths 0..17 x dtype x compression; single-fault \
            documents (absent/unparsable value, missing accession/id/unit, bad base64, bad zlib) for every error \
            class; `chaos`: well-nested random trees with elements in wrong places; `tic-zero`: the recorded \
-           defect; routes: direct parse, read_mzml from a file, read_mzml from a gzip file. mzmlraw: truncations, \
+           defect; routes: direct parse, read_spectra from a file named .mzML/.mzml/.MZML, read_spectra from a gzip file named \
+           .mzML.gz/.mzml.gz/.MZML.GZ/.mzml.Gz (and read_mzml for .mzML.gzip) - all spellings the unchanged code reads; \
+           ids and spectrumRefs with characters that need XML escaping (entities and numeric references). mzmlraw: truncations, \
            byte flips, deletions, duplications, insertions and concatenations of rendered documents. \
            Non-trivial = at least two events inside a <spectrum>; distinct by request line",
     serial: false,
@@ -75,6 +81,8 @@ enum Payload {
 #[derive(Clone, Debug, PartialEq)]
 enum Ev {
     Start(Tag, Option<String>, Option<String>),
+    /// start tag whose id / spectrumRef attribute holds a malformed entity
+    StartBad(Tag),
     End(Tag),
     EmptyTag(Tag),
     Cv(usize, Val, char),
@@ -181,6 +189,9 @@ fn write_events(o: &mut Out, evs: &[Ev]) {
                 opt_str(o, id);
                 opt_str(o, rf);
             }
+            Ev::StartBad(t) => {
+                o.raw("B").raw(&tag_tok(t));
+            }
             Ev::End(t) => {
                 o.raw("E").raw(&tag_tok(t));
             }
@@ -240,6 +251,7 @@ fn read_events(t: &mut Toks) -> Option<Vec<Ev>> {
                 let rf = t.opt(|t| t.string())?;
                 Ev::Start(g, id, rf)
             }
+            "B" => Ev::StartBad(parse_tag(t.tok()?)?),
             "E" => Ev::End(parse_tag(t.tok()?)?),
             "Z" => Ev::EmptyTag(parse_tag(t.tok()?)?),
             "C" => {
@@ -319,6 +331,30 @@ fn fmt_val(v: &Val, r: &mut Rng) -> Option<String> {
     }
 }
 
+/// XML-escape an attribute value: `& < > " '` always, other characters now and then as numeric references
+fn xml_escape(v: &str, r: &mut Rng) -> String {
+    let mut o = String::new();
+    for c in v.chars() {
+        let special = matches!(c, '&' | '<' | '>' | '"' | '\'');
+        if special || r.chance(1, 12) {
+            match (special, r.below(3)) {
+                (true, 0) => o.push_str(match c {
+                    '&' => "&amp;",
+                    '<' => "&lt;",
+                    '>' => "&gt;",
+                    '"' => "&quot;",
+                    _ => "&apos;",
+                }),
+                (_, 1) => o.push_str(&format!("&#{};", c as u32)),
+                _ => o.push_str(&format!("&#x{:X};", c as u32)),
+            }
+        } else {
+            o.push(c);
+        }
+    }
+    o
+}
+
 /// events -> XML text. Everything drawn from `style` is something the parser must not care about.
 fn render(style: u64, evs: &[Ev]) -> Vec<u8> {
     let mut r = Rng::new(style);
@@ -360,13 +396,13 @@ fn render(style: u64, evs: &[Ev]) -> Vec<u8> {
                     s.push_str(&format!(" index={q}0{q}"));
                 }
                 if let Some(id) = id {
-                    s.push_str(&format!(" id={q}{id}{q}"));
+                    s.push_str(&format!(" id={q}{}{q}", xml_escape(id, &mut r)));
                 }
                 if *t == Tag::Sp || *t == Tag::Bda {
                     s.push_str(&format!(" defaultArrayLength={q}3{q}"));
                 }
                 if let Some(rf) = rf {
-                    s.push_str(&format!(" spectrumRef={q}{rf}{q}"));
+                    s.push_str(&format!(" spectrumRef={q}{}{q}", xml_escape(rf, &mut r)));
                 }
                 if matches!(t, Tag::Other(_)) && r.chance(1, 2) {
                     s.push_str(&format!(" count={q}1{q}"));
@@ -375,6 +411,19 @@ fn render(style: u64, evs: &[Ev]) -> Vec<u8> {
                     s.push(' ');
                 }
                 s.push('>');
+                depth += 1;
+                if *t == Tag::Bin {
+                    bin_open += 1;
+                }
+            }
+            Ev::StartBad(t) => {
+                sep(&mut s, &mut r, depth, bin_open);
+                let bad = *r.pick(&["a&bogus;b", "x&#xZZ;", "lone & ampersand", "&#;", "&;"]);
+                let attr = match t {
+                    Tag::Pre => "spectrumRef",
+                    _ => "id",
+                };
+                s.push_str(&format!("<{} {attr}={q}{bad}{q}>", tag_name(t)));
                 depth += 1;
                 if *t == Tag::Bin {
                     bin_open += 1;
@@ -562,11 +611,21 @@ fn parse_direct(filter: Option<u8>, sn: Option<u8>, doc: &[u8]) -> String {
 static FILE_COUNTER: std::sync::atomic::AtomicUsize = std::sync::atomic::AtomicUsize::new(0);
 
 /// the public file route: `util::read_mzml` (tokio runtime, file reader, gzip by extension)
-fn parse_via_file(gz: bool, sn: Option<u8>, doc: &[u8]) -> String {
+/// file names of the file route (style % 3 == 1) and of the gzip route (style % 3 == 2); the spelling is
+/// `(style / 3) % len`. All of them are accepted by the unchanged code; `read_spectra` (format detection by
+/// lower-cased suffix, then `read_mzml`) is used for every spelling except `.mzML.gzip`, which format detection
+/// does not know (it panics with "Unable to get type") and which therefore goes to `read_mzml` directly.
+const PLAIN_NAMES: [&str; 3] = [".mzML", ".mzml", ".MZML"];
+const GZIP_NAMES: [&str; 5] = [".mzML.gz", ".mzml.gz", ".MZML.GZ", ".mzml.Gz", ".mzML.gzip"];
+
+/// the public file route: `util::read_spectra` / `util::read_mzml` (tokio runtime, file reader, gzip by extension)
+fn parse_via_file(gz: bool, style: u64, sn: Option<u8>, doc: &[u8]) -> String {
     let n = FILE_COUNTER.fetch_add(1, std::sync::atomic::Ordering::Relaxed);
     let dir = std::env::temp_dir().join(format!("verif-c16-{}", std::process::id()));
     let _ = std::fs::create_dir_all(&dir);
-    let path = dir.join(format!("d{n}.mzML{}", if gz { ".gz" } else { "" }));
+    let k = (style / 3) as usize;
+    let suffix = if gz { GZIP_NAMES[k % GZIP_NAMES.len()] } else { PLAIN_NAMES[k % PLAIN_NAMES.len()] };
+    let path = dir.join(format!("RUN{n}{suffix}"));
     let bytes = if gz {
         let mut e = flate2::write::GzEncoder::new(Vec::new(), flate2::Compression::fast());
         e.write_all(doc).unwrap();
@@ -575,7 +634,11 @@ fn parse_via_file(gz: bool, sn: Option<u8>, doc: &[u8]) -> String {
         doc.to_vec()
     };
     std::fs::write(&path, bytes).unwrap();
-    let res = sage_cloudpath::util::read_mzml(path.to_str().unwrap(), 7, sn);
+    let res = if suffix.ends_with(".gzip") {
+        sage_cloudpath::util::read_mzml(path.to_str().unwrap(), 7, sn)
+    } else {
+        sage_cloudpath::util::read_spectra(path.to_str().unwrap(), 7, sn, Default::default(), false)
+    };
     let _ = std::fs::remove_file(&path);
     match res {
         Ok(sp) => reply_ok(&sp),
@@ -612,8 +675,8 @@ pub fn exec(op: &str, t: &mut Toks) -> Option<String> {
             }
             let doc = render(style, &evs);
             Some(match (style % 3, filter) {
-                (1, None) => parse_via_file(false, sn, &doc),
-                (2, None) => parse_via_file(true, sn, &doc),
+                (1, None) => parse_via_file(false, style, sn, &doc),
+                (2, None) => parse_via_file(true, style, sn, &doc),
                 _ => parse_direct(filter, sn, &doc),
             })
         }
@@ -773,7 +836,9 @@ struct Opts {
 }
 
 fn gen_id(r: &mut Rng, n: usize) -> String {
-    match r.below(4) {
+    match r.below(6) {
+        4 => format!("scan={n}&file=\"a<b>\" it's"),
+        5 => (*r.pick(&["&", "<>", "a&amp;b", "\"quoted\"", "'", "&#65;", "x & y < z", "&lt;"])).to_string(),
         0 => format!("scan={n}"),
         1 => format!("controllerType=0 controllerNumber=1 scan={n}"),
         2 => format!("spectrum={}", r.below(100000)),
@@ -847,7 +912,7 @@ fn gen_el(r: &mut Rng, n: usize, o: &Opts) -> El {
     for k in 0..nprec {
         let mut pe = Prec::default();
         if has(r, 50) {
-            pe.rf = Some(format!("scan={}", n + k));
+            pe.rf = Some(if r.chance(1, 4) { format!("scan={}&\"<'>", n + k) } else { format!("scan={}", n + k) });
         }
         if has(r, 60) {
             pe.iso.push(p(OTHER, fval(r)));
@@ -1120,7 +1185,7 @@ fn inject_fault(r: &mut Rng, evs: &mut Vec<Ev>) -> Option<&'static str> {
     let idx: Vec<usize> = (0..evs.len()).collect();
     let mut order = idx.clone();
     r.shuffle(&mut order);
-    let kind = r.below(7);
+    let kind = r.below(8);
     for i in order {
         match (kind, &evs[i]) {
             (0, Ev::Cv(c, _, u)) if *c >= LEVEL && *c < OTHER && *c != PROFILE && *c != CENTROID => {
@@ -1160,6 +1225,14 @@ fn inject_fault(r: &mut Rng, evs: &mut Vec<Ev>) -> Option<&'static str> {
                     evs[i] = Ev::Text(Payload::Data(w2, i2));
                     return Some("fault:zlib");
                 }
+            }
+            (7, Ev::Start(Tag::Sp, _, _)) => {
+                evs[i] = Ev::StartBad(Tag::Sp);
+                return Some("fault:bad-entity");
+            }
+            (7, Ev::Start(Tag::Pre, _, _)) => {
+                evs[i] = Ev::StartBad(Tag::Pre);
+                return Some("fault:bad-entity");
             }
             (6, Ev::Start(Tag::Sp, Some(_), _)) => {
                 evs[i] = Ev::Start(Tag::Sp, None, None);
